@@ -1,0 +1,302 @@
+// Copyright 2020-2025 Buf Technologies, Inc.
+//
+// Licensed under the Apache License, Version 2.0 (the "License");
+// you may not use this file except in compliance with the License.
+// You may obtain a copy of the License at
+//
+//      http://www.apache.org/licenses/LICENSE-2.0
+//
+// Unless required by applicable law or agreed to in writing, software
+// distributed under the License is distributed on an "AS IS" BASIS,
+// WITHOUT WARRANTIES OR CONDITIONS OF ANY KIND, either express or implied.
+// See the License for the specific language governing permissions and
+// limitations under the License.
+
+//go:build verif
+
+package bufmodule
+
+// Contracts for the gocv verifier (see /verif/DESIGN.md). Comment-only. (author ca-r4j)
+// Spec functions / ghost variables rj_*: /verif/specs/R4j.spec.
+//
+// C10 / C02: views of a ModuleSet (module_set.go), the dependency walk top level (module_dep.go), module accessors
+// (module.go) and the path views of a read bucket (module_read_bucket.go).
+//
+// ---- plain index / field reads ----
+//@ func newModuleSetToDAGOptions() (r)
+//@   property C10
+//@   ensures fresh: r != nil && !old(allocated(r))
+//@   ensures all-modules-by-default: !r.remoteOnly
+//@ func (m *moduleSet) GetModuleForCommitID(commitID) (r)
+//@   property C10
+//@   ensures present: (commitID in m.commitIDToModule) ==> r == m.commitIDToModule[commitID]
+//@   ensures absent-is-nil: !(commitID in m.commitIDToModule) ==> r == nil
+//
+// ---- OpaqueID lists: exactly the OpaqueIDs of the non-target / local / remote modules of the set ----
+//@ func ModuleSetNonTargetOpaqueIDs(moduleSet) (r)
+//@   property C10 C02
+//@   ensures in-module-order {C02}: forall j int :: 0 <= j && j < len(r) ==> (exists i int :: 0 <= i && i < len(moduleSet.Modules()) && moduleSet.Modules()[i].OpaqueID() == r[j] && !moduleSet.Modules()[i].IsTarget() && (forall k int :: 0 <= k && k < i && !moduleSet.Modules()[k].IsTarget() ==> (exists jj int :: 0 <= jj && jj < j && r[jj] == moduleSet.Modules()[k].OpaqueID())))
+//@   ensures only-non-targets: forall j int :: 0 <= j && j < len(r) ==> (exists i int :: 0 <= i && i < len(moduleSet.Modules()) && !moduleSet.Modules()[i].IsTarget() && moduleSet.Modules()[i].OpaqueID() == r[j])
+//@   ensures all-non-targets: forall i int :: 0 <= i && i < len(moduleSet.Modules()) && !moduleSet.Modules()[i].IsTarget() ==> (exists j int :: 0 <= j && j < len(r) && r[j] == moduleSet.Modules()[i].OpaqueID())
+//@   canary ensures len(r) == 0
+//@ func ModuleSetLocalOpaqueIDs(moduleSet) (r)
+//@   property C10 C02
+//@   ensures in-module-order {C02}: forall j int :: 0 <= j && j < len(r) ==> (exists i int :: 0 <= i && i < len(moduleSet.Modules()) && moduleSet.Modules()[i].OpaqueID() == r[j] && moduleSet.Modules()[i].IsLocal() && (forall k int :: 0 <= k && k < i && moduleSet.Modules()[k].IsLocal() ==> (exists jj int :: 0 <= jj && jj < j && r[jj] == moduleSet.Modules()[k].OpaqueID())))
+//@   ensures only-local: forall j int :: 0 <= j && j < len(r) ==> (exists i int :: 0 <= i && i < len(moduleSet.Modules()) && moduleSet.Modules()[i].IsLocal() && moduleSet.Modules()[i].OpaqueID() == r[j])
+//@   ensures all-local: forall i int :: 0 <= i && i < len(moduleSet.Modules()) && moduleSet.Modules()[i].IsLocal() ==> (exists j int :: 0 <= j && j < len(r) && r[j] == moduleSet.Modules()[i].OpaqueID())
+//@   canary ensures len(r) == 0
+//@ func ModuleSetRemoteOpaqueIDs(moduleSet) (r)
+//@   property C10 C02
+//@   ensures in-module-order {C02}: forall j int :: 0 <= j && j < len(r) ==> (exists i int :: 0 <= i && i < len(moduleSet.Modules()) && moduleSet.Modules()[i].OpaqueID() == r[j] && !moduleSet.Modules()[i].IsLocal() && (forall k int :: 0 <= k && k < i && !moduleSet.Modules()[k].IsLocal() ==> (exists jj int :: 0 <= jj && jj < j && r[jj] == moduleSet.Modules()[k].OpaqueID())))
+//@   ensures only-remote: forall j int :: 0 <= j && j < len(r) ==> (exists i int :: 0 <= i && i < len(moduleSet.Modules()) && !moduleSet.Modules()[i].IsLocal() && moduleSet.Modules()[i].OpaqueID() == r[j])
+//@   ensures all-remote: forall i int :: 0 <= i && i < len(moduleSet.Modules()) && !moduleSet.Modules()[i].IsLocal() ==> (exists j int :: 0 <= j && j < len(r) && r[j] == moduleSet.Modules()[i].OpaqueID())
+//@   canary ensures len(r) == 0
+//
+// ---- the union bucket of the .proto files of (target) modules ----
+//@ func newMultiProtoFileModuleReadBucket(delegates, shouldBeSelfContained) (r)
+//@   property C10
+//@   ensures fresh: r != nil && !old(allocated(r))
+//@   ensures as-given: r.delegates == delegates && r.shouldBeSelfContained == shouldBeSelfContained
+//@ func ModuleSetToModuleReadBucketWithOnlyProtoFiles(moduleSet) (r)
+//@   property C10
+//@   ensures union-bucket: r != nil && !old(allocated(r)) && typeOf(r) == typeId(*multiProtoFileModuleReadBucket[Module, []Module])
+//@   ensures over-exactly-all-modules: cast(*multiProtoFileModuleReadBucket[Module, []Module], r).delegates == moduleSet.Modules()
+//@   ensures self-contained: cast(*multiProtoFileModuleReadBucket[Module, []Module], r).shouldBeSelfContained
+//@ func ModuleSetToModuleReadBucketWithOnlyProtoFilesForTargetModules(moduleSet) (r)
+//@   property C10
+//@   ensures union-bucket: r != nil && !old(allocated(r)) && typeOf(r) == typeId(*multiProtoFileModuleReadBucket[Module, []Module])
+//@   ensures only-target-modules: forall j int :: 0 <= j && j < len(cast(*multiProtoFileModuleReadBucket[Module, []Module], r).delegates) ==> cast(*multiProtoFileModuleReadBucket[Module, []Module], r).delegates[j].IsTarget() && (exists i int :: 0 <= i && i < len(moduleSet.Modules()) && moduleSet.Modules()[i] == cast(*multiProtoFileModuleReadBucket[Module, []Module], r).delegates[j])
+//@   ensures all-target-modules: forall i int :: 0 <= i && i < len(moduleSet.Modules()) && moduleSet.Modules()[i].IsTarget() ==> (exists j int :: 0 <= j && j < len(cast(*multiProtoFileModuleReadBucket[Module, []Module], r).delegates) && cast(*multiProtoFileModuleReadBucket[Module, []Module], r).delegates[j] == moduleSet.Modules()[i])
+//@   ensures in-module-order: forall j int :: 0 <= j && j < len(cast(*multiProtoFileModuleReadBucket[Module, []Module], r).delegates) ==> (exists i int :: 0 <= i && i < len(moduleSet.Modules()) && moduleSet.Modules()[i] == cast(*multiProtoFileModuleReadBucket[Module, []Module], r).delegates[j] && (forall k int :: 0 <= k && k < i && moduleSet.Modules()[k].IsTarget() ==> (exists jj int :: 0 <= jj && jj < j && cast(*multiProtoFileModuleReadBucket[Module, []Module], r).delegates[jj] == moduleSet.Modules()[k])))
+//@   ensures self-contained: cast(*multiProtoFileModuleReadBucket[Module, []Module], r).shouldBeSelfContained
+//
+// ---- module.go: accessors are plain field reads; OpaqueID prefers the full name; Description falls back to OpaqueID ----
+//@ func (m *module) OpaqueID() (r)
+//@   property C10
+//@   ensures name-preferred: m.moduleFullName != nil ==> r == m.moduleFullName.String()
+//@   ensures else-bucket-id: m.moduleFullName == nil ==> r == m.bucketID
+//@ func (m *module) BucketID() (r)
+//@   property C10
+//@   ensures r == m.bucketID
+//@ func (m *module) FullName() (r)
+//@   property C10
+//@   ensures r == m.moduleFullName
+//@ func (m *module) CommitID() (r)
+//@   property C10
+//@   ensures r == m.commitID
+//@ func (m *module) Description() (r)
+//@   property C10
+//@   ensures explicit: m.description != "" ==> r == m.description
+//@   ensures fallback-name: m.description == "" && m.moduleFullName != nil ==> r == m.moduleFullName.String()
+//@   ensures fallback-bucket-id: m.description == "" && m.moduleFullName == nil ==> r == m.bucketID
+//@ func (m *module) IsTarget() (r)
+//@   property C10
+//@   ensures r == m.isTarget
+//@ func (m *module) IsLocal() (r)
+//@   property C10
+//@   ensures r == m.isLocal
+//@ func (m *module) ModuleSet() (r)
+//@   property C10
+//@   ensures r == m.moduleSet
+//@ func (m *moduleDep) Parent() (r)
+//@   property C10
+//@   ensures r == m.parent
+//@ func (m *moduleDep) IsDirect() (r)
+//@   property C10
+//@   ensures r == m.isDirect
+//
+// ModuleToModuleKey: a module without a full name cannot be keyed; otherwise the key carries the module's own name and commit.
+//@ func ModuleToModuleKey(module, digestType) (r, err)
+//@   property C10
+//@   modifies heap
+//@   closure 0 ensures true
+//@   ensures no-name-rejected: module.FullName() == nil ==> err != nil
+//@   ensures key-of-this-module: err == nil ==> r != nil && cast(*moduleKey, r).moduleFullName == module.FullName() && cast(*moduleKey, r).commitID == module.CommitID()
+//@   canary ensures err != nil
+//
+// ModuleDirectModuleDeps: exactly the dependencies flagged direct, in the order ModuleDeps gives them (sorted by
+// OpaqueID, see getModuleDeps); an error of ModuleDeps is passed on with no dependencies.
+//@ func ModuleDirectModuleDeps(module) (r, err)
+//@   property C10 C02
+//@   closure 0 ensures r <==> moduleDep.IsDirect()
+//@   ensures error-forwarded: second(module.ModuleDeps()) != nil ==> err == second(module.ModuleDeps()) && len(r) == 0
+//@   ensures no-new-error: second(module.ModuleDeps()) == nil ==> err == nil
+//@   ensures only-direct: err == nil ==> (forall j int :: 0 <= j && j < len(r) ==> r[j].IsDirect() && (exists i int :: 0 <= i && i < len(first(module.ModuleDeps())) && first(module.ModuleDeps())[i] == r[j]))
+//@   ensures all-direct: err == nil ==> (forall i int :: 0 <= i && i < len(first(module.ModuleDeps())) && first(module.ModuleDeps())[i].IsDirect() ==> (exists j int :: 0 <= j && j < len(r) && r[j] == first(module.ModuleDeps())[i]))
+//@   ensures in-order {C02}: err == nil ==> (forall j int :: 0 <= j && j < len(r) ==> (exists i int :: 0 <= i && i < len(first(module.ModuleDeps())) && first(module.ModuleDeps())[i] == r[j] && (forall k int :: 0 <= k && k < i && first(module.ModuleDeps())[k].IsDirect() ==> (exists jj int :: 0 <= jj && jj < j && r[jj] == first(module.ModuleDeps())[k]))))
+//@   ensures none-direct: err == nil && (forall i int :: 0 <= i && i < len(first(module.ModuleDeps())) ==> !first(module.ModuleDeps())[i].IsDirect()) ==> len(r) == 0
+//@   canary ensures len(r) == 0
+//
+// ---- module_read_bucket.go ----
+// Path lists: the paths of the (target) file infos, which are sorted by path whatever the walk order was => sorted.
+//@ func GetFilePaths(ctx, moduleReadBucket) (r, err)
+//@   property C10 C02
+//@   closure 0 ensures r == fileInfo.Path()
+//@   ensures sorted {C02}: err == nil ==> (forall a int, b int :: 0 <= a && a < b && b < len(r) ==> r[a] <= r[b])
+//@   ensures walk-failure-reported: err != nil ==> len(r) == 0
+//@   canary ensures err != nil
+//@ func GetTargetFilePaths(ctx, moduleReadBucket) (r, err)
+//@   property C10 C02
+//@   closure 0 ensures r == fileInfo.Path()
+//@   ensures sorted {C02}: err == nil ==> (forall a int, b int :: 0 <= a && a < b && b < len(r) ==> r[a] <= r[b])
+//@   ensures walk-failure-reported: err != nil ==> len(r) == 0
+//@   canary ensures err != nil
+//
+// The three views: a target-only / type-filtered view OF THE GIVEN BUCKET (what the views let through is verified on
+// (*targetedModuleReadBucket).StatFileInfo / (*filteredModuleReadBucket).StatFileInfo+WalkFileInfos in zz_verif_contracts_targetfiles.go).
+//@ func ModuleReadBucketWithOnlyTargetFiles(moduleReadBucket) (r)
+//@   property C10
+//@   ensures target-view-of-this-bucket: r != nil && !old(allocated(r)) && typeOf(r) == typeId(*targetedModuleReadBucket) && cast(*targetedModuleReadBucket, r).delegate == moduleReadBucket
+//@ func ModuleReadBucketWithOnlyFileTypes(moduleReadBucket, fileTypes) (r)
+//@   property C10
+//@   ensures filtered-view-of-this-bucket: r != nil && !old(allocated(r)) && typeOf(r) == typeId(*filteredModuleReadBucket) && cast(*filteredModuleReadBucket, r).delegate == moduleReadBucket
+//@   ensures exactly-the-listed-types: forall ft FileType :: (ft in cast(*filteredModuleReadBucket, r).fileTypeMap) <==> (exists j int :: 0 <= j && j < len(fileTypes) && fileTypes[j] == ft)
+//@   ensures self-contained-needs-proto: cast(*filteredModuleReadBucket, r).shouldBeSelfContained <==> (moduleReadBucket.ShouldBeSelfContained() && (exists j int :: 0 <= j && j < len(fileTypes) && fileTypes[j] == FileTypeProto))
+//@ func ModuleReadBucketWithOnlyProtoFiles(moduleReadBucket) (r)
+//@   property C10
+//@   ensures filtered-view-of-this-bucket: r != nil && !old(allocated(r)) && typeOf(r) == typeId(*filteredModuleReadBucket) && cast(*filteredModuleReadBucket, r).delegate == moduleReadBucket
+//@   ensures proto-only: forall ft FileType :: (ft in cast(*filteredModuleReadBucket, r).fileTypeMap) <==> ft == FileTypeProto
+//@   ensures self-contained-kept: cast(*filteredModuleReadBucket, r).shouldBeSelfContained <==> moduleReadBucket.ShouldBeSelfContained()
+//
+// The documentation file of a module: the FIRST of orderedDocFilePaths (buf.md, README.md, README.markdown) the bucket has.
+//@ pure func getDocFilePathForModuleReadBucket(ctx, bucket) (r)
+//@   property C10
+//@   ensures first-existing: forall i int :: 0 <= i && i < len(orderedDocFilePaths) && second(bucket.StatFileInfo(ctx, orderedDocFilePaths[i])) == nil && (forall j int :: 0 <= j && j < i ==> second(bucket.StatFileInfo(ctx, orderedDocFilePaths[j])) != nil) ==> r == orderedDocFilePaths[i]
+//@   ensures none: (forall i int :: 0 <= i && i < len(orderedDocFilePaths) ==> second(bucket.StatFileInfo(ctx, orderedDocFilePaths[i])) != nil) ==> r == ""
+//@   ensures a-candidate-or-none: r == "" || (exists i int :: 0 <= i && i < len(orderedDocFilePaths) && r == orderedDocFilePaths[i] && second(bucket.StatFileInfo(ctx, r)) == nil)
+//@   loop 0 invariant forall j int :: 0 <= j && j < $i ==> second(bucket.StatFileInfo(ctx, orderedDocFilePaths[j])) != nil
+//@ func GetDocFile(ctx, moduleReadBucket) (r, err)
+//@   property C10
+//@   ensures none-is-not-exist: getDocFilePathForModuleReadBucket(ctx, moduleReadBucket) == "" ==> r == nil && err == fs.ErrNotExist
+//@   ensures the-chosen-file: getDocFilePathForModuleReadBucket(ctx, moduleReadBucket) != "" ==> r == first(moduleReadBucket.GetFile(ctx, getDocFilePathForModuleReadBucket(ctx, moduleReadBucket))) && err == second(moduleReadBucket.GetFile(ctx, getDocFilePathForModuleReadBucket(ctx, moduleReadBucket)))
+//@   ensures buf-md-wins: len(orderedDocFilePaths) == 3 && orderedDocFilePaths[0] == "buf.md" && second(moduleReadBucket.StatFileInfo(ctx, "buf.md")) == nil ==> r == first(moduleReadBucket.GetFile(ctx, "buf.md"))
+//@   ensures readme-md-before-markdown: len(orderedDocFilePaths) == 3 && orderedDocFilePaths[0] == "buf.md" && orderedDocFilePaths[1] == "README.md" && second(moduleReadBucket.StatFileInfo(ctx, "buf.md")) != nil && second(moduleReadBucket.StatFileInfo(ctx, "README.md")) == nil ==> r == first(moduleReadBucket.GetFile(ctx, "README.md"))
+//@ func GetLicenseFile(ctx, moduleReadBucket) (r, err)
+//@   property C10
+//@   ensures the-license-file: r == first(moduleReadBucket.GetFile(ctx, "LICENSE")) && err == second(moduleReadBucket.GetFile(ctx, "LICENSE"))
+//
+// ---- module_dep.go: the top level of the dependency walk ----
+// The reported dependencies are the records the walk (getModuleDepsRec, zz_verif_contracts_deps.go) left in its map:
+// every one of them, nothing else, sorted by OpaqueID whatever the map enumeration order was
+// (C02); all records are created by this call; a failing walk or a failing tracker validation (a .proto path provided
+// by two modules, a module without .proto files) yields the error and NO dependencies.
+//@ func getModuleDeps(ctx, module) (r, err)
+//@   property C10 C02
+//@   modifies heap
+//@   ensures sorted-by-opaque-id {C02}: err == nil ==> (forall a int, b int :: 0 <= a && a < b && b < len(r) ==> r[a].OpaqueID() <= r[b].OpaqueID())
+//@   ensures failure-reports-no-deps: err != nil ==> len(r) == 0
+//@   ensures records-of-this-call: err == nil ==> (forall j int, d ref :: 0 <= j && j < len(r) && d == r[j] ==> d != nil && !old(allocated(d)))
+//@   canary ensures err != nil
+//@   assert before "sort.Slice(" every-recorded-dep-reported: forall k string :: k in depOpaqueIDToModuleDep ==> (exists j int :: 0 <= j && j < len(moduleDeps) && moduleDeps[j] == depOpaqueIDToModuleDep[k])
+//@   assert before "sort.Slice(" only-recorded-deps-reported: forall j int :: 0 <= j && j < len(moduleDeps) ==> (exists k string :: k in depOpaqueIDToModuleDep && moduleDeps[j] == depOpaqueIDToModuleDep[k])
+//@   loop 0 invariant forall k string :: k in $visited ==> (exists j int :: 0 <= j && j < len(moduleDeps) && moduleDeps[j] == depOpaqueIDToModuleDep[k])
+//@   loop 0 invariant forall j int :: 0 <= j && j < len(moduleDeps) ==> (exists k string :: k in $visited && k in depOpaqueIDToModuleDep && moduleDeps[j] == depOpaqueIDToModuleDep[k])
+//@   loop 0 invariant forall j int, d ref :: 0 <= j && j < len(moduleDeps) && d == moduleDeps[j] ==> d != nil && !old(allocated(d))
+//
+// ---- the dependency graph of a ModuleSet (ModuleSetToDAG) ----
+// Graph model: ghost.rj_dagNodes / ghost.rj_dagEdges (R4j.spec; dag.NewGraph / AddNode / AddEdge are trusted there).
+//@ func ModuleSetToDAGWithRemoteOnly() (r)
+//@   property C10
+//@   ensures r != nil
+//@   closure 0 ensures sets-remote-only: moduleSetToDAGOptions.remoteOnly
+// One step of the graph walk from `module`: nodes and edges only grow; `module` becomes a node (a local module does not
+// when only remote modules are wanted); for every DIRECT dependency d of `module` the edge module -> d is added (with
+// remote-only: when both ends are remote); every edge added anywhere below goes from a module to one of ITS direct
+// dependencies (never a transitive one, never with a local end under remote-only); and every node added below has all
+// the edges to its own direct dependencies (the walk does not stop early).
+//@ func moduleSetToDAGRec(module, graph, remoteOnly) (err)
+//@   property C10
+//@   modifies ghost.rj_dagNodes, ghost.rj_dagEdges
+//@   reveal rj_direct
+//@   ensures nodes-kept: forall v ref :: v in old(ghost.rj_dagNodes) ==> v in ghost.rj_dagNodes
+//@   ensures edges-kept: forall a ref, b ref :: rj_edge(old(ghost.rj_dagEdges), a, b) ==> rj_edge(ghost.rj_dagEdges, a, b)
+//@   ensures this-module-is-a-node: err == nil && (!remoteOnly || !module.IsLocal()) ==> module in ghost.rj_dagNodes
+//@   ensures remote-only-adds-no-local-node: remoteOnly ==> (forall v Module :: v in ghost.rj_dagNodes && !(v in old(ghost.rj_dagNodes)) ==> !v.IsLocal())
+//@   ensures direct-edges-present: err == nil ==> (forall d Module :: rj_direct(module, d) && (!remoteOnly || (!module.IsLocal() && !d.IsLocal())) ==> rj_edge(ghost.rj_dagEdges, module, d))
+//@   ensures only-direct-edges: forall a Module, b Module :: rj_edge(ghost.rj_dagEdges, a, b) && !rj_edge(old(ghost.rj_dagEdges), a, b) ==> rj_direct(a, b) && (remoteOnly ==> !a.IsLocal() && !b.IsLocal())
+//@   ensures new-nodes-have-all-their-direct-edges: err == nil ==> (forall n Module, d Module :: n in ghost.rj_dagNodes && !(n in old(ghost.rj_dagNodes)) && rj_direct(n, d) && (!remoteOnly || !d.IsLocal()) ==> rj_edge(ghost.rj_dagEdges, n, d))
+//@   ensures deps-error-forwarded: second(module.ModuleDeps()) != nil ==> err != nil
+//@   canary ensures err != nil
+//@   loop 0 invariant forall v ref :: v in old(ghost.rj_dagNodes) ==> v in ghost.rj_dagNodes
+//@   loop 0 invariant forall a ref, b ref :: rj_edge(old(ghost.rj_dagEdges), a, b) ==> rj_edge(ghost.rj_dagEdges, a, b)
+//@   loop 0 invariant (!remoteOnly || !module.IsLocal()) ==> module in ghost.rj_dagNodes
+//@   loop 0 invariant remoteOnly ==> (forall v Module :: v in ghost.rj_dagNodes && !(v in old(ghost.rj_dagNodes)) ==> !v.IsLocal())
+//@   loop 0 invariant forall j int :: 0 <= j && j < $i && (!remoteOnly || (!module.IsLocal() && !directModuleDeps[j].IsLocal())) ==> rj_edge(ghost.rj_dagEdges, module, directModuleDeps[j])
+//@   loop 0 invariant forall a Module, b Module :: rj_edge(ghost.rj_dagEdges, a, b) && !rj_edge(old(ghost.rj_dagEdges), a, b) ==> rj_direct(a, b) && (remoteOnly ==> !a.IsLocal() && !b.IsLocal())
+//@   loop 0 invariant forall n Module, d Module :: n in ghost.rj_dagNodes && !(n in old(ghost.rj_dagNodes)) && n != module && rj_direct(n, d) && (!remoteOnly || !d.IsLocal()) ==> rj_edge(ghost.rj_dagEdges, n, d)
+//
+// ModuleSetToDAG: the graph starts empty and is grown from the TARGET modules only. Every edge goes from a module to one
+// of its direct dependencies; without options every node has the edges to all its direct dependencies (that every
+// target module becomes a node is moduleSetToDAGRec#post[this-module-is-a-node]; it is not restated here because the
+// loop ranges over the call ModuleSetTargetModules(moduleSet), a slice without a name for the loop invariant); with options the same holds for the remote modules when remoteOnly ended up set (asserted on the
+// option record just before the graph is returned, since the option value is a local).
+//@ func ModuleSetToDAG(moduleSet, options) (r, err)
+//@   property C10
+//@   modifies heap moduleSetToDAGOptions.remoteOnly, ghost.rj_dagNodes, ghost.rj_dagEdges
+//@   calls option modifies heap moduleSetToDAGOptions.remoteOnly
+//@   ensures graph-returned: err == nil ==> r != nil
+//@   ensures failure-gives-nil: err != nil ==> r == nil
+//@   ensures only-direct-edges: forall a Module, b Module :: rj_edge(ghost.rj_dagEdges, a, b) ==> rj_direct(a, b)
+//@   ensures every-node-has-all-its-direct-edges: err == nil && len(options) == 0 ==> (forall n Module, d Module :: n in ghost.rj_dagNodes && rj_direct(n, d) ==> rj_edge(ghost.rj_dagEdges, n, d))
+//@   canary ensures err != nil
+//@   canary ensures err == nil
+//@   assert before "return graph, nil" remote-only-graph-has-no-local-module: moduleSetToDAGOptions.remoteOnly ==> (forall v Module :: v in ghost.rj_dagNodes ==> !v.IsLocal()) && (forall a Module, b Module :: rj_edge(ghost.rj_dagEdges, a, b) ==> !a.IsLocal() && !b.IsLocal())
+//@   assert before "return graph, nil" remote-nodes-have-all-their-remote-direct-edges: forall n Module, d Module :: n in ghost.rj_dagNodes && rj_direct(n, d) && !n.IsLocal() && !d.IsLocal() ==> rj_edge(ghost.rj_dagEdges, n, d)
+//@   loop 0 invariant moduleSetToDAGOptions != nil && (len(options) == 0 ==> !moduleSetToDAGOptions.remoteOnly)
+//@   loop 1 invariant graph != nil
+//@   loop 1 invariant forall a Module, b Module :: rj_edge(ghost.rj_dagEdges, a, b) ==> rj_direct(a, b) && (moduleSetToDAGOptions.remoteOnly ==> !a.IsLocal() && !b.IsLocal())
+//@   loop 1 invariant moduleSetToDAGOptions.remoteOnly ==> (forall v Module :: v in ghost.rj_dagNodes ==> !v.IsLocal())
+//@   loop 1 invariant forall n Module, d Module :: n in ghost.rj_dagNodes && rj_direct(n, d) && (!moduleSetToDAGOptions.remoteOnly || !d.IsLocal()) ==> rj_edge(ghost.rj_dagEdges, n, d)
+//
+// ---- ModuleSetTargetLocalModulesAndTransitiveLocalDeps (what push uploads) ----
+// MapValuesToSlice: exactly the values of the map (in map enumeration order: callers sort).
+//@ func github.com/bufbuild/buf/private/pkg/slicesext.MapValuesToSlice(m) (r)
+//@   property C10 C02
+//@   ensures only-values: forall j int :: 0 <= j && j < len(r) ==> (exists k K :: k in m && m[k] == r[j])
+//@   ensures all-values: forall k K :: k in m ==> (exists j int :: 0 <= j && j < len(r) && r[j] == m[k])
+//@   loop 0 invariant forall j int :: 0 <= j && j < len(s) ==> (exists k K :: k in $visited && k in m && m[k] == s[j])
+//@   loop 0 invariant forall k K :: k in $visited ==> (exists j int :: 0 <= j && j < len(s) && s[j] == m[k])
+// One step: the module is marked visited; a module seen before is skipped (each module once); a LOCAL module seen for
+// the first time is recorded under its OpaqueID; only local modules are ever recorded, each under its own OpaqueID;
+// earlier marks and records are kept.
+//@ func moduleSetTargetLocalModulesAndTransitiveLocalDepsRec(visitedOpaqueIDs, resultOpaqueIDToLocalModule, module) (err)
+//@   property C10
+//@   modifies visitedOpaqueIDs, resultOpaqueIDToLocalModule
+//@   requires maps: visitedOpaqueIDs != nil && resultOpaqueIDToLocalModule != nil
+//@   requires recorded-were-visited: forall k string :: k in resultOpaqueIDToLocalModule ==> k in visitedOpaqueIDs
+//@   ensures maps-stay: visitedOpaqueIDs != nil && resultOpaqueIDToLocalModule != nil
+//@   ensures recorded-are-visited: forall k string :: k in resultOpaqueIDToLocalModule ==> k in visitedOpaqueIDs
+//@   ensures visited-grows: forall k string :: k in old(visitedOpaqueIDs) ==> k in visitedOpaqueIDs
+//@   ensures this-module-visited: module.OpaqueID() in visitedOpaqueIDs
+//@   ensures results-kept: forall k string :: k in old(resultOpaqueIDToLocalModule) ==> k in resultOpaqueIDToLocalModule && resultOpaqueIDToLocalModule[k] == old(resultOpaqueIDToLocalModule)[k]
+//@   ensures seen-before-is-skipped: module.OpaqueID() in old(visitedOpaqueIDs) ==> err == nil && (forall k string :: (k in visitedOpaqueIDs) <==> (k in old(visitedOpaqueIDs))) && (forall k string :: (k in resultOpaqueIDToLocalModule) <==> (k in old(resultOpaqueIDToLocalModule)))
+//@   ensures first-seen-local-recorded: !(module.OpaqueID() in old(visitedOpaqueIDs)) && module.IsLocal() ==> module.OpaqueID() in resultOpaqueIDToLocalModule && (!(module.OpaqueID() in old(resultOpaqueIDToLocalModule)) ==> resultOpaqueIDToLocalModule[module.OpaqueID()] == module)
+//@   ensures only-local-recorded-under-own-id: forall k string :: k in resultOpaqueIDToLocalModule && !(k in old(resultOpaqueIDToLocalModule)) ==> resultOpaqueIDToLocalModule[k].IsLocal() && resultOpaqueIDToLocalModule[k].OpaqueID() == k
+//@   ensures recorded-means-first-visited-now: forall k string :: k in resultOpaqueIDToLocalModule && !(k in old(resultOpaqueIDToLocalModule)) ==> k in visitedOpaqueIDs && !(k in old(visitedOpaqueIDs))
+//@   ensures deps-error-forwarded: !(module.OpaqueID() in old(visitedOpaqueIDs)) && second(module.ModuleDeps()) != nil ==> err == second(module.ModuleDeps())
+//@   canary ensures err != nil
+//@   canary ensures err == nil
+//@   loop 0 invariant visitedOpaqueIDs != nil && resultOpaqueIDToLocalModule != nil
+//@   loop 0 invariant forall k string :: k in old(visitedOpaqueIDs) ==> k in visitedOpaqueIDs
+//@   loop 0 invariant opaqueID in visitedOpaqueIDs
+//@   loop 0 invariant forall k string :: k in resultOpaqueIDToLocalModule ==> k in visitedOpaqueIDs
+//@   loop 0 invariant forall k string :: k in old(resultOpaqueIDToLocalModule) ==> k in resultOpaqueIDToLocalModule && resultOpaqueIDToLocalModule[k] == old(resultOpaqueIDToLocalModule)[k]
+//@   loop 0 invariant module.IsLocal() ==> opaqueID in resultOpaqueIDToLocalModule && (!(opaqueID in old(resultOpaqueIDToLocalModule)) ==> resultOpaqueIDToLocalModule[opaqueID] == module)
+//@   loop 0 invariant forall k string :: k in resultOpaqueIDToLocalModule && !(k in old(resultOpaqueIDToLocalModule)) ==> resultOpaqueIDToLocalModule[k].IsLocal() && resultOpaqueIDToLocalModule[k].OpaqueID() == k
+//@   loop 0 invariant forall k string :: k in resultOpaqueIDToLocalModule && !(k in old(resultOpaqueIDToLocalModule)) ==> k in visitedOpaqueIDs && !(k in old(visitedOpaqueIDs))
+//
+// Top level: only local modules, each OpaqueID once, sorted by OpaqueID whatever the map enumeration order (C02).
+//@ func ModuleSetTargetLocalModulesAndTransitiveLocalDeps(moduleSet) (r, err)
+//@   property C10 C02
+//@   closure 0 ensures r <==> (module.IsTarget() && module.IsLocal())
+//@   ensures sorted-by-opaque-id {C02}: err == nil ==> (forall a int, b int :: 0 <= a && a < b && b < len(r) ==> r[a].OpaqueID() <= r[b].OpaqueID())
+//@   ensures only-local-modules: err == nil ==> (forall j int :: 0 <= j && j < len(r) ==> r[j].IsLocal())
+//@   ensures failure-gives-nothing: err != nil ==> len(r) == 0
+//@   ensures no-local-target-no-result: err == nil && (forall i int :: 0 <= i && i < len(moduleSet.Modules()) ==> !(moduleSet.Modules()[i].IsTarget() && moduleSet.Modules()[i].IsLocal())) ==> len(r) == 0
+//@   canary ensures err != nil
+//@   canary ensures err == nil
+//@   assert before "resultLocalModules := slicesext.MapValuesToSlice" local-targets-visited: forall j int :: 0 <= j && j < len(targetLocalModules) ==> targetLocalModules[j].OpaqueID() in visitedOpaqueIDs
+//@   loop 0 invariant visitedOpaqueIDs != nil && resultOpaqueIDToLocalModule != nil
+//@   loop 0 invariant forall j int :: 0 <= j && j < $i ==> targetLocalModules[j].OpaqueID() in visitedOpaqueIDs
+//@   loop 0 invariant forall k string :: k in resultOpaqueIDToLocalModule ==> resultOpaqueIDToLocalModule[k].IsLocal() && resultOpaqueIDToLocalModule[k].OpaqueID() == k && k in visitedOpaqueIDs
+//@   loop 0 invariant $i == 0 ==> len(resultOpaqueIDToLocalModule) == 0
